@@ -868,8 +868,27 @@ def check_gen_total(prop, tier, seed, repo, keep):
                     merged_all['violations'].append(dict(prop='C12', key='gen/behaviour/%s/%s' % (pid, x['key']), type=x.get('type', ''), detail='freshly generated type violates %s: %s' % (pid, x.get('detail', '')), replay=x.get('replay')))
                     merged_all['n_violations'] += 1
         add_init_failures(prop, w, merged_all)
+        gen_cov = {}
+        if tier == 'thorough':
+            # statement coverage of the *generated* code reached by the engines (evidence only)
+            try:
+                pk = [MODULE + '/testpb', MODULE + '/internal/testprotos/test3'] + w.fresh_pkgs
+                cb = w.p('zzbin', 'vh-cover')
+                w.gobuild(cb, './zzverif/vh', ['-cover', '-coverpkg=' + ','.join(pk)])
+                cd = w.p('zzcov-gen')
+                os.makedirs(cd, exist_ok=True)
+                for eng, n in (('codec', 20), ('wire', 30), ('reflectdiff', 10), ('nilread', 0), ('libdiff', 10), ('alias', 10)):
+                    args = ['-n', str(n)] if n else []
+                    w.run_engine(cb, eng, shards=8, args=args, env={'GOCOVERDIR': cd})
+                pr = subprocess.run(['go', 'tool', 'covdata', 'percent', '-i=' + cd], cwd=w.dir, env=GOENV, stdout=subprocess.PIPE, stderr=subprocess.STDOUT)
+                vals = [float(m.group(1)) for m in re.finditer(r'coverage:\s+([0-9.]+)%', pr.stdout.decode())]
+                if vals:
+                    gen_cov = dict(generated_code_statement_coverage_percent=dict(packages=len(vals), min=min(vals), mean=round(sum(vals) / len(vals), 1), max=max(vals)))
+            except Exception as e:
+                gen_cov = dict(generated_code_statement_coverage_percent='not collected: %s' % str(e)[:200])
         pct, unc = plugin_coverage(w, w.p('zzreq'))
         extra = gen_summary(w)
+        extra.update(gen_cov)
         extra.update(plugin_invocations=nev, template_statement_coverage_percent=pct, uncovered_template_blocks=unc[:200],
                      families=sorted({e['family'] for e in w.events}))
         return finish(prop, tier, seed, t0, merged_all, RULES[prop], ASSUME, 40, 30, extra=extra)
